@@ -145,6 +145,31 @@ def replay_file(path, timeout=600):
             'rc': p.returncode}
 
 
+_DOCUMENTED_REFUSALS = ('Unable to find a donor cluster', 'ticc_joint_labels', 'ticc_labels',
+                        'iteration_limit', 'Cluster needs at least one point')
+
+
+def same_failure(cex, rep):
+    """A replay that 'reproduces' *by raising* is believed only when it is the failure the engine saw:
+    the same exception class on both sides, or -- when the engine saw wrong values, not an exception --
+    anything but one of the library's documented refusals (which the real build issues, rightly, for
+    inputs such as two points and two clusters, whatever the code under test does)."""
+    if not rep.get('reproduced'):
+        return True
+    sig = str(rep.get('signature') or '')
+    real_exc = (rep.get('observed') or {}).get('raised')
+    if not isinstance(real_exc, str) or not ('raises' in sig or 'rejected' in sig):
+        return True
+    det = cex.get('detail') if isinstance(cex.get('detail'), dict) else {}
+    sym_exc = det.get('raised') or (cex.get('notes') or {}).get('unexpected_exception')
+
+    def cls(x):
+        return str(x).split('(')[0].strip()
+    if sym_exc:
+        return cls(sym_exc) == cls(real_exc)
+    return not any(m in real_exc for m in _DOCUMENTED_REFUSALS)
+
+
 def validate_witnesses(pid, witnesses, timeout=900):
     """Path-witness replay: each path's model is a concrete input; the real
     function is run on it and compared with the symbolic outputs."""
@@ -207,6 +232,14 @@ def main(argv=None):
         r = replay_file(os.path.abspath(a.replay))
         print(json.dumps(r, indent=1))
         pid = r.get('property', a.property or '?')
+        try:
+            with open(os.path.abspath(a.replay)) as fh:
+                if not same_failure(json.load(fh), r):
+                    print("not the failure the engine saw (exception classes differ, or a documented refusal): "
+                          "nothing is claimed")
+                    return 3
+        except (OSError, ValueError):
+            pass
         if r.get('reproduced'):
             print("VIOLATION property=%s replay=%s" % (pid, os.path.abspath(a.replay)))
             return 1
@@ -327,6 +360,9 @@ def _main2(a, pid, chk, mutations, seed, t0):
         with open(path, 'w') as fh:
             json.dump(c, fh, indent=1, default=str)
         r = replay_file(path)
+        if not same_failure(c, r):
+            r = dict(r, reproduced=False, note='the real build raised, but not the failure the engine saw '
+                                               '(exception classes differ, or a documented refusal)')
         c['replay'] = r
         c['replay_path'] = path
         if r.get('reproduced'):
